@@ -35,11 +35,11 @@ VDECOY = ["p2g", "p2s", "p2so", "ov2", "dso", "p1so", "uso"]
 ODECOY = ["p2g", "p2s", "p2so", "ov2", "dso", "p1so"]
 
 # option paths used for slot o / q per declared type (q only exists for "str"); "rep" = an int option without built-in value
-OPT_PATH = {"str": "resourceManager.lsf.queue", "int": "resourceRequest.numberProcesses",
+OPT_PATH = {"list": "workflowAttributes.shutdownOn", "str": "resourceManager.lsf.queue", "int": "resourceRequest.numberProcesses",
             "float": "resourceManager.config.walltime", "bool": "workflowAttributes.isMigratable"}
 OPT_PATH_NOBUILTIN = {"int": "workflowAttributes.replicate", "str": "resourceManager.lsf.reservation"}
 Q_PATH = "resourceManager.lsf.resourceString"
-PY_TYPE = {"str": str, "int": int, "float": float, "bool": bool}
+PY_TYPE = {"str": str, "int": int, "float": float, "bool": bool, "list": list}
 
 
 # the abstract variables v, w, x of the spec get names that are a prefix / a suffix of one another
@@ -52,17 +52,19 @@ def sset(xs):
 
 
 def family_cfg(name, V=(), W=(), X=(), O=(), Q=(), vref=(), wref=(), xref=(), oref=(), block=True, obuiltin=True,
-               kind="str", litform="native", sibling=False, histlen=0):
+               kind="str", litform="native", sibling=False, histlen=0, oempty=(), vempty=(), replicated=True):
     return {"name": name, "text": "CONSTANTS\n  VAllowed = %s\n  WAllowed = %s\n  XAllowed = %s\n  OAllowed = %s\n  QAllowed = %s\n"
             "  VRefAt = %s\n  WRefAt = %s\n  XRefAt = %s\n  ORefAt = %s\n  DecoyBlock = %s\n  OBuiltin = %s\n  OptKind = \"%s\"\n"
-            "  LitForm = \"%s\"\n  Family = \"%s\"\n  Emit = TRUE\n  Sibling = %s\n  HistLen = %d\n"
+            "  LitForm = \"%s\"\n  Family = \"%s\"\n  Emit = TRUE\n  Sibling = %s\n  HistLen = %d\n  OEmptyAllowed = %s\n  VEmptyAllowed = %s\n  Replicated = %s\n"
             "SPECIFICATION Spec\nINVARIANT TypeOK\nINVARIANT FoldIsTop\nINVARIANT NoDecoyInResult\nINVARIANT NoReferenceLeft\n"
             "INVARIANT AnswersAreLayering\nINVARIANT ViewsSeparate\n"
             "INVARIANT EmitCase\nPROPERTY DecoyIrrelevant\nPROPERTY HigherWins\nPROPERTY ReadsDoNotWrite\nCHECK_DEADLOCK FALSE\n" % (
                 sset(V), sset(W), sset(X), sset(O), sset(Q), sset(vref), sset(wref), sset(xref), sset(oref),
                 "TRUE" if block else "FALSE", "TRUE" if obuiltin else "FALSE", kind, litform, name,
-                "TRUE" if sibling else "FALSE", histlen),
+                "TRUE" if sibling else "FALSE", histlen, sset(oempty), sset(vempty),
+                "TRUE" if (replicated and not histlen and obuiltin) else "FALSE"),      # the no-built-in int option is `replicate` itself
             "histlen": histlen,
+            "expect_empty": bool(oempty or vempty),
             "expect_decoys": block and bool(set(V) | set(W) | set(X) | set(O) | set(Q)) and bool((set(V) | set(O) | set(W) | set(X) | set(Q)) & set(VDECOY))}
 
 
@@ -96,6 +98,13 @@ def families(tier):
             fams.append(family_cfg("typed-%s-%s" % (k, lf), O=["dg", "comp", "ov1"], oref=["dg", "comp", "ov1"], V=vl, kind=k, litform=lf, block=False))
     fams.append(family_cfg("typed-int-nobuiltin", O=["ds", "comp", "ovd"], oref=["ds", "comp", "ovd"], V=vl, W=["dg"], vref=["ug"], kind="int",
                            litform="string", obuiltin=False, block=False))
+    # E: definitions that CLEAR: an explicitly empty value ('' / []) at a layer is a value (it overrides), not an absence
+    el = ["dg", "ds", "p1g", "p1s", "comp", "ov1"] + (["ovd"] if th else [])
+    fams.append(family_cfg("empty-str", O=el, oempty=el, block=False, kind="str"))
+    ll = ["dg", "p1s", "comp", "ovd", "ov1"] + (["ds"] if th else [])
+    fams.append(family_cfg("empty-list", O=ll, oempty=ll, block=False, kind="list"))
+    vl2 = ["dg", "ds", "p1s", "us", "comp"] + (["ov1"] if th else [])
+    fams.append(family_cfg("empty-var", V=vl2, vempty=vl2, O=["comp"], oref=["comp"], block=False, kind="str"))
     # H: histories of read-only calls on one object (stage-level blueprints, a sibling component of the same stage):
     #    query / instance / replicate for either platform, with and without injected defaults, the last call a query
     hl = 3 if th else 2
@@ -114,6 +123,12 @@ def families(tier):
 def lit_value(d, kind, litform, is_option):
     """literal written at definition d (a record of the spec: s, l, code)"""
     code = d["code"]
+    if kind == "list":                                  # only option o is a list (of text); everything else is text
+        if d["s"] == "o":
+            return [] if d.get("empty") else ["%s@%s" % (d["s"], d["l"])]
+        kind = "str"
+    if d.get("empty"):
+        return ""                                       # a definition that clears
     if kind == "str":
         return "%s@%s" % (d["s"], d["l"])
     native = is_option or litform == "native"          # options in blueprints must be written with their native type
@@ -128,7 +143,7 @@ def lit_value(d, kind, litform, is_option):
 
 
 def ref_value(d, kind):
-    if kind == "str":
+    if kind in ("str", "list"):
         return "%s@%s{%%(%s)s}" % (d["s"], d["l"], VNAME[d["next"]])       # no [..]: that would be an array access
     if kind in ("int", "float"):
         return "%d%%(%s)s" % (d["code"], VNAME[d["next"]])
@@ -143,11 +158,11 @@ def render_def(d, kind, litform):
 
 def expected_text(chain, kind, litform):
     """the string a fully substituted chain becomes"""
-    if kind == "str":
-        out = ""
-        for e in reversed(chain):
-            out = "%s@%s%s" % (e["s"], e["l"], "{%s}" % out if out else "")
-        return out
+    if kind in ("str", "list"):
+        e = chain[0]
+        if e.get("empty"):
+            return ""
+        return "%s@%s%s" % (e["s"], e["l"], "{%s}" % expected_text(chain[1:], kind, litform) if len(chain) > 1 else "")
     last = chain[-1]
     lv = lit_value(last, kind, litform, last["s"] in ("o", "q"))
     tail = lv if isinstance(lv, str) else repr(lv)
@@ -164,7 +179,7 @@ def expected_variable(chain, kind, litform):
 
 
 def typed(text_or_native, kind):
-    if kind == "str":
+    if kind in ("str", "list"):
         return text_or_native
     if kind == "bool":
         if isinstance(text_or_native, bool):
@@ -204,7 +219,7 @@ def decode(text, kind):
              23: "ov2", 24: "dso", 25: "p1so", 26: "uso", 27: "p2so", 99: "other-component"}
     slots = {"3": "o", "4": "q", "5": "v", "6": "w", "7": "x", "9": "?"}
     text = str(text)
-    if kind == "str":
+    if kind in ("str", "list"):
         return re.findall(r"([oqvwx])@([a-z0-9]+)", text) + ([("?", "other-component")] if "other" in text else [])
     return [(slots.get(a, "?"), codes.get(int(b), "?")) for a, b in re.findall(r"([345679])(\d\d)", text.split(".")[0])]
 
@@ -227,12 +242,12 @@ def build_doc(case):
     paths = opt_paths(case)
     c = {"name": "c", "stage": 0, "command": {"executable": "echo", "arguments": args_template(case)}, "variables": {}}
     # the other component defines everything itself: its values must never show up in c
-    other_lit = {"str": "other", "int": 999, "float": 999.5, "bool": True}[kind]
+    other_lit = {"str": "other", "int": 999, "float": 999.5, "bool": True, "list": "other"}[kind]
     d = {"name": "d", "stage": 1, "command": {"executable": "echo", "arguments": "y"},
          "variables": {VNAME[s]: other_lit for s in VORDER}}
     for s in ("o", "q"):
         if s in case["used"]:
-            set_path(d, paths[s], "other" if s == "q" else other_lit)
+            set_path(d, paths[s], "other" if s == "q" else (["other"] if kind == "list" else other_lit))
     comps = [c, d]
     if case.get("sibling"):
         # a second component of the same stage that defines nothing itself: it sees every layer but c's own ones
@@ -316,14 +331,14 @@ def write_user_files(user, scratch, variant):
     return files
 
 
-def load(flowir, files, active, validate):
+def load(flowir, files, active, validate, primitive=True):
     FL, conf, E = real_modules()
     return conf.FlowIRExperimentConfiguration(
         path=None, platform=active, variable_files=list(files), system_vars={}, is_instance=False, createInstanceFiles=False,
-        primitive=True, concrete=FL.FlowIRConcrete(copy.deepcopy(flowir), active, {}), updateInstanceFiles=False, validate=validate)
+        primitive=primitive, concrete=FL.FlowIRConcrete(copy.deepcopy(flowir), active, {}), updateInstanceFiles=False, validate=validate)
 
 
-def check_query(case, concrete, Q, exp, where, rpq, comp="c", inject=True):
+def check_query(case, concrete, Q, exp, where, rpq, comp="c", inject=True, raw_view=True):
     """One query on `concrete`: get_component_variables + get_component_configuration of component `comp` for platform Q,
     compared with the specification's answer `exp` (ResultV of the view (comp, inject))."""
     FL, conf, E = real_modules()
@@ -334,7 +349,7 @@ def check_query(case, concrete, Q, exp, where, rpq, comp="c", inject=True):
     cid = (0, comp)
     # raw view: which definition is on top for each variable
     try:
-        raw = concrete.get_component_variables(cid, platform=Q)
+        raw = concrete.get_component_variables(cid, platform=Q) if raw_view else None
     except BaseException as e:
         out.append(("vars:unexpected-exception:%s" % type(e).__name__, "%s: get_component_variables raised %r" % (where, e), rpq))
         raw = None
@@ -468,6 +483,29 @@ def run_case(case, scratch, idx=0, only=None):
             rpq = dict(rp, query=Q)
             where = "family %s active %s query %s defs %s" % (case["family"], active, Q, brief(case))
             out.extend(check_query(case, concrete, Q, exp, where, rpq))
+        if case.get("replicated") and not (only and only.get("query") not in (None, "replicated")):
+            # the same question to the replicated description (built for the active platform; it only has the platform `default`)
+            rpq = dict(rp, query="replicated")
+            where = "family %s REPLICATED for %s defs %s" % (case["family"], active, brief(case))
+            # a reference written in a scope (global / stage variable, blueprint option) that instance() binds before the component's
+            # own variables are known: one class of input, one key
+            scope_ref = any(d["ref"] and d["l"] not in ("comp", "ovd", "ov1", "ov2") for d in case["defs"])
+            early = "replicated:scope-reference-bound-before-component-scope"
+            try:
+                try:
+                    cfr = load(flowir, files, active, True, primitive=False)
+                except E.ExperimentInvalidConfigurationError as e:
+                    if not exp_active["errs"]:
+                        out.append((early if scope_ref else "replicated:" + classify_loader_reject(case, e),
+                                    "%s: the non-primitive loader rejected a valid package: %s" % (where, str(e)[-300:].replace("\n", " | ")), rpq))
+                    cfr = load(flowir, files, active, False, primitive=False)
+            except BaseException as e:
+                if isinstance(e, (KeyboardInterrupt, SystemExit)):
+                    raise
+                out.append(("replicated:load:unexpected-exception:%s" % type(e).__name__, "%s: building the replicated configuration raised %r" % (where, str(e)[:300]), rpq))
+            else:
+                res = check_query(case, cfr._concrete, "default", case["exp"][active], where, rpq, raw_view=False)
+                out.extend((early if scope_ref else "replicated:" + key, what, r) for key, what, r in res)
     return out
 
 
@@ -533,7 +571,7 @@ def classify_loader_reject(case, e):
 
 
 def brief(case):
-    return ",".join("%s@%s%s" % (d["s"], d["l"], "*" if d["ref"] else "") for d in sorted(case["defs"], key=lambda r: (r["s"], r["code"])))
+    return ",".join("%s@%s%s" % (d["s"], d["l"], "*" if d["ref"] else ("=''" if d.get("empty") else "")) for d in sorted(case["defs"], key=lambda r: (r["s"], r["code"])))
 
 
 # ----------------------------------------------------------------------------------------------------------------
@@ -669,6 +707,8 @@ def run(tier):
             raise MachineryError("Layering.tla (%s): %s fails on the model:\n%s" % (fam["name"], r["violated"], r["out"][-2000:]))
         if not r["coverage"].get("Define"):
             raise MachineryError("action Define never taken in family %s: %s" % (fam["name"], r["coverage"]))
+        if fam["expect_empty"] and not r["coverage"].get("DefineEmpty"):
+            raise MachineryError("action DefineEmpty never taken in family %s: %s" % (fam["name"], r["coverage"]))
         if fam["expect_decoys"] and not r["coverage"].get("DefineDecoys"):
             raise MachineryError("action DefineDecoys never taken in family %s: %s" % (fam["name"], r["coverage"]))
         seen, uniq = set(), []
